@@ -6,7 +6,7 @@ fn main() {
     let src = std::fs::read_to_string(std::env::args().nth(1).unwrap()).unwrap();
     let src2 = std::env::args().nth(2).map(|p| std::fs::read_to_string(p).unwrap()).unwrap_or(src.clone());
     let n: u64 = std::env::args().nth(3).map(|s| s.parse().unwrap()).unwrap_or(8);
-    let opts = SutOptions { with_scheduler: true, sample_rate: 48000, self_init_0: false };
+    let opts = SutOptions { with_scheduler: true, sample_rate: 48000, self_init_0: false, with_sampler: std::env::var("WITH_SAMPLER").is_ok() };
     for b in [Backend::Vm, Backend::VmCli, Backend::WasmP2, Backend::WasmCli] {
         let mut s = match Sut::start(b, &src, None, &opts, RetireMode::Present) { Ok(s) => s, Err(e) => { println!("{:?} start failed: {e}", b); continue; } };
         let mut out = vec![];
